@@ -93,8 +93,10 @@ type LNNet struct {
 	PayOrder []string
 	Ledger   map[string]*LNLedger
 	Scripts  map[string]*LNScript // by payment hash
-	nodeKey  *secp256k1.PrivateKey
-	Calls    []LNCall
+	// ForceNextPay: outcome of the next unscripted pay call (then cleared)
+	ForceNextPay string
+	nodeKey      *secp256k1.PrivateKey
+	Calls        []LNCall
 }
 
 type LNCall struct {
@@ -417,6 +419,9 @@ func (c *LNClient) pay(ctx context.Context, method, request string, amountMsat, 
 	mode := "succeeded"
 	if sc := n.Scripts[p.Hash]; sc != nil {
 		mode = sc.Pay
+	} else if n.ForceNextPay != "" {
+		// fixed scenarios whose invoice is created inside the operation under test
+		mode, n.ForceNextPay = n.ForceNextPay, ""
 	} else if n.Cfg.PayOutcomeMix == 1 && !n.s.Quiet {
 		mode = []string{"succeeded", "failed", "pending", "error-none", "error-inflight", "error-succeeded", "error-failed", "timeout"}[n.s.Tape.Pick("ln.pay.outcome", 8, 3, 3, 1, 1, 1, 1, 1)]
 	}
